@@ -71,6 +71,8 @@ for c in checks:
     lines = [l for l in p.stdout.splitlines() if l.startswith(("VIOLATION", "  key=", "KNOWN-FINDING", "MACHINERY"))] + [l for l in p.stderr.splitlines() if "MACHINERY" in l]
     keys = sorted({l.split("key=")[1].split(" ::")[0] for l in lines if "key=" in l})
     res["checks"][c] = {"tier": a.tier, "exit": p.returncode, "keys": keys[:8]}
+    if p.returncode == 2:
+        res["checks"][c]["machinery"] = ([l for l in p.stderr.splitlines() if "MACHINERY" in l or "Error" in l] or [p.stderr[-300:]])[-1][:400]
 shutil.rmtree(d, ignore_errors=True)
 res["detected"] = any(v["exit"] == 1 for v in res["checks"].values())
 res["confirmed"] = bool(res["demo_clean_exit"] == 0 and res["patch_applies"] and res["demo_patched_exit"] != 0 and (a.no_suite or res.get("suite_passed")))
